@@ -2261,6 +2261,49 @@ fn gen_lang_hist(r: &mut Rng) -> Hist {
     Hist { lang, urls, ops }
 }
 
+
+/// crash, restart, further adds (Coq: C07_crash_then_add): a dictionary with a few words; the add of a LONG word dies at some
+/// system call (often late: the temporary file <name>.tmp is left behind complete or nearly so); then shorter and longer words
+/// are added, the documents are checked, the server restarts: the file must reload to exactly old (+ the crashed word) + the
+/// later adds — a left-over temporary file must never leak into the dictionary
+fn gen_crash_then_hist(r: &mut Rng) -> Hist {
+    let urls: Vec<String> = vec!["f:a/b.txt".into()];
+    let sc = if r.chance(2, 3) { Scope::User } else { Scope::File(0) };
+    let mut ops = vec![];
+    let mut seed: Vec<String> = vec![];
+    for _ in 0..r.range(0, 3) {
+        let w = made_up(r);
+        if !seed.iter().any(|x| real_id(x) == real_id(&w)) {
+            seed.push(w);
+        }
+    }
+    if !seed.is_empty() {
+        ops.push(Op::Seed(sc.clone(), seed.clone()));
+    }
+    let long = format!("{}{}{}", made_up(r), made_up(r), if r.chance(1, 2) { made_up(r) } else { "žluťoučký".to_string() });
+    let sys = r.s(&["rename", "rename", "sync", "sync", "close", "write", "open", "unlink"]);
+    let when = if r.chance(3, 4) { 1 } else { 2 };
+    ops.push(Op::Crash(sc.clone(), long.clone(), sys.to_string(), when));
+    let mut later: Vec<String> = vec![];
+    for k in 0..r.range(1, 3) {
+        // the first later word is short (the new file is shorter than the left-over), then anything
+        let w: String = if k == 0 || r.chance(1, 2) { made_up(r).chars().take(r.range(2, 4)).collect() } else { format!("{}{}", long, made_up(r)) };
+        if later.iter().chain(seed.iter()).any(|x| real_id(x) == real_id(&w)) || real_id(&w) == real_id(&long) {
+            continue;
+        }
+        ops.push(Op::Add(if r.chance(5, 6) { sc.clone() } else { Scope::User }, w.clone()));
+        later.push(w);
+        if r.chance(1, 3) {
+            ops.push(Op::Lint(0, format!("{} {} {}", seed.join(" "), long, later.join(" "))));
+        }
+    }
+    if r.chance(1, 2) {
+        ops.push(Op::Restart);
+    }
+    ops.push(Op::Lint(0, format!("{} {} {}", seed.join(" "), long, later.join(" "))));
+    Hist { lang: "plaintext".into(), urls, ops }
+}
+
 /// metamorphic histories: a rule-rich paragraph in which some words are replaced by made-up ones; checked
 /// before the words are added, after, and after a restart ("all other lints are unchanged")
 fn gen_meta_hist(r: &mut Rng) -> Hist {
@@ -2511,7 +2554,7 @@ fn main() {
     }
     let (args, corpus) = hv::cli();
     let mut rep = Report::new(&args.out);
-    rep.rule = "histories of add-to-user-dictionary / add-to-file-dictionary / check-a-document / restart on the real harper-ls Backend (1-3 documents incl. percent-named, case-twin and untitled ones; dictionary files written by other tools, with and without a final newline / CRLF; made-up stems with case variants, non-ASCII and apostrophe words, curated words of another dialect; a malformed stream of non-words incl. LF/CR); real crash points (the add runs in a child killed by strace on entering the N-th openat/write/mkdir/fsync/rename; the dictionary file AND its .tmp sibling are examined); load_dict on arbitrary file contents; file_dict_name on generated paths; harper_wasm::Linter import_words/lint/export_words histories; MergedDictionary equality on pairs of dictionaries. non-trivial = distinct history / file content / path / pair".into();
+    rep.rule = "histories of add-to-user-dictionary / add-to-file-dictionary / check-a-document / restart on the real harper-ls Backend (1-3 documents incl. percent-named, case-twin and untitled ones; dictionary files written by other tools, with and without a final newline / CRLF; made-up stems with case variants, non-ASCII and apostrophe words, curated words of another dialect; a malformed stream of non-words incl. LF/CR); real crash points (the add runs in a child killed by strace on entering the N-th openat/write/mkdir/fsync/rename; the dictionary file AND its .tmp sibling are examined); crash-then-continue histories (a long word's add dies late, then shorter and longer words are added, restart, reload); load_dict on arbitrary file contents; file_dict_name on generated paths; harper_wasm::Linter import_words/lint/export_words histories; MergedDictionary equality on pairs of dictionaries. non-trivial = distinct history / file content / path / pair".into();
     let mut cx = Cx::new(&args);
     for v in &corpus {
         run_input(&mut cx, &mut rep, v, "corpus");
@@ -2553,6 +2596,10 @@ fn main() {
         for i in 0..args.scale(12, 80) {
             let h = gen_hist(&mut r, true, i % 7 == 6);
             run_hist(&mut cx, &mut rep, &h, "gen-crash");
+        }
+        for _ in 0..args.scale(12, 80) {
+            let h = gen_crash_then_hist(&mut r);
+            run_hist(&mut cx, &mut rep, &h, "gen-crash-then");
         }
         for _ in 0..args.scale(40, 400) {
             let h = gen_lang_hist(&mut r);
@@ -2621,8 +2668,12 @@ fn main() {
                     };
                     let ops = vec![
                         Op::Seed(sc.clone(), seed),
-                        Op::Crash(sc, "gamma".into(), class.to_string(), *when),
+                        Op::Crash(sc.clone(), "gamma".into(), class.to_string(), *when),
                         Op::Lint(0, "alpha beta gamma w7xqzqzqzqz".into()),
+                        // ... and the history goes on: a shorter word, then a longer one (C07_crash_then_add)
+                        Op::Add(sc.clone(), "zu".into()),
+                        Op::Add(sc, "gammagammagamma".into()),
+                        Op::Lint(0, "alpha beta gamma zu gammagammagamma".into()),
                     ];
                     let h = Hist { lang: "plaintext".into(), urls: vec!["f:a/b.txt".into()], ops };
                     run_hist(&mut cx, &mut rep, &h, "sweep-crash");
